@@ -382,6 +382,7 @@ def configs(
         unknown=False,
         rigs=(None,),
         strict=None,
+        side_shows=False,
         min_players=2,
         max_players_cap=9,
         profiles=(0, 1, 2, 3, 4, 5),
@@ -488,6 +489,9 @@ def configs(
         cfg['mode_as_str'] = True
     # cards arguments of operations in another of their documented forms
     # (CardsLike: text, list, one-shot iterator, generator)
+    if side_shows and draw(st.booleans()):
+        # explicit-index shows while hands are killed / chips moved by hand
+        cfg['side_shows'] = True
     form = draw(st.sampled_from([None, None, None, 'list', 'iter', 'gen',
                                  'str']))
     if form:
